@@ -179,6 +179,47 @@ Lemma mapM_slice {A B} (f : A -> option B) lo hi l r :
   mapM f l = Some r -> mapM f (slice lo hi l) = Some (slice lo hi r).
 Proof. intros H. unfold slice. apply mapM_firstn. apply mapM_skipn. exact H. Qed.
 
+(* sel: selection by an index list (general slices) *)
+Lemma In_sel {A} idxs (l : list A) x : In x (sel idxs l) -> In x l.
+Proof.
+  unfold sel. intros H. apply in_flat_map in H as (i & _ & Hi).
+  destruct (nth_error l i) eqn:E; simpl in Hi; [|contradiction].
+  destruct Hi as [->|[]]. eapply nth_error_In; eauto.
+Qed.
+
+Lemma Forall_sel {A} (P : A -> Prop) idxs l : Forall P l -> Forall P (sel idxs l).
+Proof. intros H. rewrite Forall_forall in *. intros x Hx. apply H. eapply In_sel; eauto. Qed.
+
+Lemma sel_cons {A} i idxs (l : list A) :
+  sel (i :: idxs) l = (match nth_error l i with Some x => [x] | None => [] end) ++ sel idxs l.
+Proof. reflexivity. Qed.
+
+Lemma sel_map {A B} (f : A -> B) idxs l : map f (sel idxs l) = sel idxs (map f l).
+Proof.
+  induction idxs as [|i idxs IH]; simpl; auto.
+  rewrite map_app, IH, nth_error_map. destruct (nth_error l i); reflexivity.
+Qed.
+
+Lemma length_sel_eq {A B} idxs (l : list A) (m : list B) :
+  length l = length m -> length (sel idxs l) = length (sel idxs m).
+Proof.
+  intros H. induction idxs as [|i idxs IH]; simpl; auto.
+  rewrite !app_length, IH. f_equal.
+  destruct (nth_error l i) eqn:E1, (nth_error m i) eqn:E2; auto.
+  - apply nth_error_None in E2. assert (i < length l) by (apply nth_error_Some; congruence). lia.
+  - apply nth_error_None in E1. assert (i < length m) by (apply nth_error_Some; congruence). lia.
+Qed.
+
+Lemma mapM_sel {A B} (f : A -> option B) idxs l r :
+  mapM f l = Some r -> mapM f (sel idxs l) = Some (sel idxs r).
+Proof.
+  intros H. induction idxs as [|i idxs IH]; simpl; auto.
+  apply mapM_app; auto.
+  destruct (nth_error l i) as [a|] eqn:E.
+  - destruct (mapM_nth _ _ _ _ _ H E) as (b & Hb & Hn). rewrite Hn. simpl. rewrite Hb. reflexivity.
+  - apply nth_error_None in E. rewrite <- (mapM_length _ _ _ H) in E. apply nth_error_None in E. rewrite E. reflexivity.
+Qed.
+
 Lemma mapM_filter_by {A B} (f : A -> option B) bs l r :
   mapM f l = Some r -> mapM f (filter_by bs l) = Some (filter_by bs r).
 Proof.
@@ -408,7 +449,8 @@ Ltac dm :=
 Ltac destruct_op o :=
   destruct o as [v|i|i k q| |c i cp f|c is cp f|c i|c i k q|c q|c lo hi|c1 c2|c q|c removed|c|a i k q
                 |c i j ip v|cs times|t c tm cp|t|t lo hi|t|is times|k i tm|k|k lo hi|k i|ks|l q
-                |t|cs j|k|is j|ts|j q|j i q].
+                |t|cs j|k|is j|ts|j q|j i q
+                |is dt cp f|c|c idxs|t idxs|k idxs|t].
 
 Lemma copy_ems_tables h es h1 : copy_ems h es = Some h1 ->
   tcs h1 = tcs h /\ trs h1 = trs h /\ hnd h1 = hnd h /\ arrs h1 = arrs h /\ tls h1 = tls h
